@@ -350,7 +350,12 @@ func genReplayTest(ri *ReplayInfo, o *Obligation, vals map[string]string) (strin
 			fmt.Fprintf(&desc, "%s=&{", name)
 			for k := 0; k < stt.NumFields(); k++ {
 				f := stt.Field(k)
-				fts := types.TypeString(f.Type(), qual)
+				fts := ""
+				if _, ok := p.Terms["f:"+f.Name()]; ok {
+					fts = types.TypeString(f.Type(), qual)
+				} else if _, ok := p.Terms["f:"+f.Name()+".len"]; ok {
+					fts = types.TypeString(f.Type(), qual)
+				}
 				if t, ok := p.Terms["f:"+f.Name()]; ok {
 					if isBool(f.Type()) {
 						setup = append(setup, fmt.Sprintf("%s.%s = %s", name, f.Name(), vals[t]))
@@ -714,6 +719,7 @@ func runReplayTest(pkgDir, test string) (string, bool) {
 	if len(out) > 4000 {
 		out = out[:4000]
 	}
-	failed := strings.Contains(out, "GOVC-REPLAY PANIC") || strings.Contains(out, "GOVC-REPLAY CLAUSE VIOLATED") || strings.Contains(out, "panic: test timed out")
+	failed := strings.Contains(out, "GOVC-REPLAY PANIC") || strings.Contains(out, "GOVC-REPLAY CLAUSE VIOLATED") || strings.Contains(out, "panic: test timed out") ||
+		strings.Contains(out, "fatal error: stack overflow") || strings.Contains(out, "goroutine stack exceeds")
 	return out, failed
 }
